@@ -214,6 +214,10 @@ def _run_sharded(part, units, work, nworkers, tmpdir, per_worker_setup=None, uni
                 if per_worker_setup:
                     per_worker_setup(w)
                 signal.signal(signal.SIGALRM, signal.SIG_DFL)
+                if os.environ.get("VERIF_FPSTRICT"):
+                    # experiment switch: the library under a process that traps floating-point errors
+                    import numpy as _np
+                    _np.seterr(divide="raise", invalid="raise", over="raise")
                 for pos, i in enumerate(idxs):
                     slots[w] = i
                     rec._shard = (idxs, pos)
@@ -316,7 +320,7 @@ class Ctx(object):
 
     # ------------------------------------------------------------------ E1
     def lattice(self, name, units, one, expand=None, nworkers=None, bounds=None,
-                engine="lattice"):
+                engine="lattice", fpstrict=False):
         """enumerate: for unit in units: for case in expand(unit): one(case, rec)
 
         ``units`` is a list (sharded over workers); ``expand`` (default:
@@ -327,6 +331,8 @@ class Ctx(object):
         part.units = units
         part.expand = expand
         if self.replay_request is not None:
+            if fpstrict:
+                self._fpstrict_pass(name, units, one, expand, nworkers, bounds, engine)
             return part
         units = list(units)
         part.units = units
@@ -361,7 +367,22 @@ class Ctx(object):
         part.vclasses = rec.vclasses
         part.violations = rec.violations
         self._progress(part)
+        if fpstrict:
+            self._fpstrict_pass(name, units, one, expand, nworkers, bounds, engine)
         return part
+
+    def _fpstrict_pass(self, name, units, one, expand, nworkers, bounds, engine):
+        """the same part once more in a process that TRAPS floating-point errors (numpy.seterr divide/invalid/over =
+        'raise'): an environment some applications run in.  Only used for parts that are known to be clean under it
+        on the unchanged tree (the library as a whole is not: e.g. distmod(0) is log10(0))."""
+        import numpy as _np
+
+        def strict_one(case, rec):
+            with _np.errstate(divide="raise", invalid="raise", over="raise"):
+                return one(case, rec)
+        b = dict(bounds or {})
+        b["environment"] = "numpy.errstate(divide='raise', invalid='raise', over='raise')"
+        return self.lattice(name + "/fp-strict", units, strict_one, expand=expand, nworkers=nworkers, bounds=b, engine=engine)
 
     # ------------------------------------------------------------------ E2
     def histories(self, name, roots, execute, depth, nodedup_depth=2, nworkers=None,
